@@ -3,8 +3,11 @@
 package c10
 
 import (
+	"context"
 	"errors"
 	"fmt"
+	"io"
+	"os"
 	"testing"
 	"time"
 
@@ -31,6 +34,31 @@ type Op struct {
 	D     int64 `json:"d,omitempty"`
 	Pause int   `json:"pause,omitempty"` // microseconds
 	Fail  bool  `json:"fail,omitempty"`
+	// which non-nil error a failing instrumented function returns (see execErrors)
+	ErrKind int `json:"errKind,omitempty"`
+}
+
+// a typed error whose Is() matches everything, and a nil pointer of it inside a non-nil interface
+type anyErr struct{ msg string }
+
+func (e *anyErr) Error() string   { return "anyErr" }
+func (e *anyErr) Is(error) bool   { return true }
+func (e *anyErr) Timeout() bool   { return true }
+func (e *anyErr) Temporary() bool { return true }
+
+// every one of these is a non-nil error: the call failed, whatever the error says about itself
+var execErrors = []error{
+	errors.New("sentinel"),
+	context.Canceled,
+	context.DeadlineExceeded,
+	io.EOF,
+	fmt.Errorf("rpc: %w", context.Canceled),
+	fmt.Errorf("outer: %w", fmt.Errorf("inner: %w", context.DeadlineExceeded)),
+	os.ErrNotExist,
+	io.ErrUnexpectedEOF,
+	&anyErr{},
+	(*anyErr)(nil),
+	errors.New(""),
 }
 
 type Case struct {
@@ -88,6 +116,9 @@ func gen(t *rapid.T) Case {
 				}
 			}
 			op.Fail = rapid.Bool().Draw(t, "fail")
+			if op.Fail && k == "exec" {
+				op.ErrKind = rapid.IntRange(0, len(execErrors)-1).Draw(t, "errKind")
+			}
 		}
 		c.Ops = append(c.Ops, op)
 	}
@@ -297,7 +328,7 @@ func run(c Case) (pbt.Outcome, error) {
 			ms := mscopes[c.Timers[op.T].Scope]
 			call := instrument.NewCall(sc, name)
 			calls := 0
-			sentinel := errors.New("sentinel")
+			sentinel := execErrors[op.ErrKind%len(execErrors)]
 			var slept time.Duration
 			f := func() error {
 				calls++
@@ -344,7 +375,7 @@ func run(c Case) (pbt.Outcome, error) {
 				}
 			}
 			if op.Fail && !(succ == 0 && fail == 1) || !op.Fail && !(succ == 1 && fail == 0) {
-				errs.Addf("op %d: after Exec(fail=%v): success=%d error=%d", oi, op.Fail, succ, fail)
+				errs.Addf("op %d: after Exec(fail=%v, error %#v): success=%d error=%d", oi, op.Fail, sentinel, succ, fail)
 			}
 		}
 	}
